@@ -922,12 +922,21 @@ func (fr *Frame) aliveNow(x *Term, t types.Type) {
 		return
 	}
 	alive := fr.cur.get("alive", SArray(SRef, SBool))
+	// a reference read while nothing has been allocated yet is nil or a pre-state object: the simplifier may treat it
+	// as distinct from every object allocated later (like a reference held in an input)
+	early := alive == c.alive0
 	switch u := t.Underlying().(type) {
 	case *types.Pointer, *types.Map:
 		c.assume(Or(Eq(x, BVLit(0, 64)), Select(alive, x)))
+		if early {
+			inputRefTerms[x] = true
+		}
 	case *types.Slice:
 		a := DataField_(x, 0)
 		c.assume(Or(Eq(a, BVLit(0, 64)), Select(alive, a)))
+		if early {
+			inputRefTerms[a] = true
+		}
 	case *types.Struct:
 		if opaqueStruct(t) {
 			return
@@ -1309,6 +1318,24 @@ func (fr *Frame) lookupLocal(li *LoopInfo, name string) (Val, bool) {
 		}
 		if phi.Comment == name {
 			return fr.vals[phi], true
+		}
+	}
+	// rangeindexN: the hidden index of the enclosing range loop with ordinal N (usable in loops nested inside it)
+	if strings.HasPrefix(name, "rangeindex") && len(name) > len("rangeindex") {
+		var n int
+		if _, err := fmt.Sscanf(name[len("rangeindex"):], "%d", &n); err == nil {
+			for _, lo := range fr.info.loops {
+				if lo.ordinal != n || !lo.header.Dominates(h) {
+					continue
+				}
+				for _, ins := range lo.header.Instrs {
+					if phi, ok := ins.(*ssa.Phi); ok && phi.Comment == "rangeindex" {
+						if v, ok := fr.vals[phi]; ok {
+							return v, true
+						}
+					}
+				}
+			}
 		}
 	}
 	for _, p := range fr.fn.Params {
